@@ -1060,7 +1060,9 @@ def trigger(case, viol):
                 if writes_in_second >= 2:
                     t.append('same-second-rewrite')
                     break
-    if 'set_bad' in kinds:
+    if 'set_bad' in kinds and not (t and viol.get('class') == 'sibling-changed'):
+        # (a sparse-observation run notices a sibling's state at whatever step comes next: an un-encodable store
+        # on ANOTHER archive is then only the step at which it was noticed, not a trigger)
         t.append('unencodable')
     return '+'.join(t) or 'plain'
 
